@@ -19,6 +19,10 @@ fn consume_mv(v: Mv) -> u8 nopanic { v.x }
 fn consume_nd(v: Nd) -> u8 nopanic { let Nd { x } = v; x }
 fn peek_mv(v: @Mv) -> u8 nopanic { *v.x }
 fn peek_nd(v: @Nd) -> u8 nopanic { *v.x }
+struct Pd { x: u8 }
+impl PdPanicDestruct of PanicDestruct<Pd> { fn panic_destruct(self: Pd, ref panic: Panic) nopanic { let Pd { x: _ } = self; } }
+fn consume_pd(v: Pd) -> u8 nopanic { let Pd { x } = v; x }
+fn peek_pd(v: @Pd) -> u8 nopanic { *v.x }
 """
 PRELUDE_LINES = PRELUDE.count("\n")
 
@@ -47,9 +51,10 @@ def render_stmt(s, i):
     raise ValueError(k)
 
 
-def render_fn(name, body):
+def render_fn(name, body, vs=("mv", "nd")):
     ss = " ".join(render_stmt(s, i) for i, s in enumerate(body))
-    return f"fn {name}(c: bool, n: u8) -> u8 {{ let mv = Mv {{ x: n }}; let nd = Nd {{ x: n }}; {ss} 0 }}\n"
+    decl = " ".join(f"let {v} = {v.capitalize()} {{ x: n }};" for v in ("mv", "nd", "pd") if v in vs)
+    return f"fn {name}(c: bool, n: u8) -> u8 {{ {decl} {ss} 0 }}\n"
 
 
 def error_lines(diag, path):
@@ -102,16 +107,17 @@ def main(tier, replay=None):
         else:
             n_ok += 1
     # ---------------- (b) ownership: exhaustive abstract bodies decided by the Ownership spec
-    maxlen = 3 if quick else 4
-    res = tlc(SPEC, "MCOwnership", f"MCOwnership_{maxlen}.cfg", "c08_own", workers=4, timeout=1800)
-    if res.errors or res.violated:
-        raise ToolError(f"MCOwnership: {res.violated} {res.errors[:2]}")
-    chk.add_tlc(res)
     d = clean_dir(workdir("sem", "c08own"))
-    cases = os.path.join(d, "bodies.ndjson")
-    extract_replay(res.out_path, cases)
-    os.remove(res.out_path)
-    bodies = read_ndjson(cases)
+    bodies = []
+    for cfgname in (("nd3", "pd3") if quick else ("nd4", "pd4", "all3")):
+        res = tlc(SPEC, "MCOwnership", f"MCOwnership_{cfgname}.cfg", f"c08_own_{cfgname}", workers=4, timeout=1800)
+        if res.errors or res.violated:
+            raise ToolError(f"MCOwnership {cfgname}: {res.violated} {res.errors[:2]}")
+        chk.add_tlc(res)
+        cases = os.path.join(d, f"bodies_{cfgname}.ndjson")
+        extract_replay(res.out_path, cases)
+        os.remove(res.out_path)
+        bodies += read_ndjson(cases)
     illegal = [b for b in bodies if b["illegal"]]
     legal = [b for b in bodies if not b["illegal"]]
     if quick:
@@ -126,7 +132,7 @@ def main(tier, replay=None):
             with open(path, "w") as f:
                 f.write(PRELUDE)
                 for i, b in enumerate(chunk):
-                    f.write(render_fn(f"own_{label}_{j + i}", b["body"]))
+                    f.write(render_fn(f"own_{label}_{j + i}", b["body"], b["vars"]))
             meta[os.path.basename(path)] = (label, chunk, path)
             jobs_files.append((path, []))
     # compile only, full diagnostics
@@ -149,8 +155,8 @@ def main(tier, replay=None):
                     n_ill_ok += 1
                 else:
                     body = [f"{s['k']}({s['v']})" for s in b["body"]]
-                    chk.violation({"kind": "ownership_violation_accepted", "body": body},
-                                  {"body": b["body"], "source": PRELUDE + render_fn("own_case", b["body"])},
+                    chk.violation({"kind": "ownership_violation_accepted", "vars": sorted(b["vars"]), "body": body},
+                                  {"body": b["body"], "vars": b["vars"], "source": PRELUDE + render_fn("own_case", b["body"], b["vars"])},
                                   f"the ownership rule says {body} is illegal but the compiler reports no error for it")
             else:
                 if has_err:
@@ -162,10 +168,10 @@ def main(tier, replay=None):
     log(f"[C08] (a) files x configs compiled ok: {n_ok} (generator-rejected: {n_diag}); (b) illegal bodies rejected: {n_ill_ok}/{len(illegal)}, "
         f"legal bodies accepted: {n_leg_ok}/{len(legal)}")
     chk.cov["traces_validated_against_impl"] = n_ok + n_ill_ok + n_leg_ok
-    chk.sample({"illegal_body": illegal[5]["body"], "rendered": render_fn("own_x", illegal[5]["body"])})
-    chk.sample({"legal_body": legal[5]["body"], "rendered": render_fn("own_y", legal[5]["body"])})
+    chk.sample({"illegal_body": illegal[5]["body"], "rendered": render_fn("own_x", illegal[5]["body"], illegal[5]["vars"])})
+    chk.sample({"legal_body": legal[-5]["body"], "rendered": render_fn("own_y", legal[-5]["body"], legal[-5]["vars"])})
     chk.assumptions = ["(a) uses the generator of C01 (modelled subset); LP metadata solver excluded (not an optimisation configuration)",
-                       "(b) two variables (droppable / non-droppable movable structs), 15 statement forms, all bodies up to the length bound"]
+                       "(b) variables: a droppable, a non-droppable and a PanicDestruct-only movable struct (two at a time up to the longer bound, all three up to length 3), 7 statement forms per variable + early return, all bodies up to the length bound"]
     return chk.finish({"configs": len(cfgs), "files_x_configs_ok": n_ok, "ownership_bodies": len(bodies), "illegal_checked": len(illegal),
                        "legal_checked": len(legal), "legal_rejected_by_compiler": n_leg_err,
                        "distinct_nontrivial": n_ill_ok + n_leg_ok, "rule": "distinct abstract bodies (exhaustive up to the length bound) whose verdict was compared",
